@@ -646,9 +646,9 @@ func ruleC12(prog *Program, rep *Report) {
 	ruleNormalizeTwins(prog, rep)
 	ruleNumFamily(prog, rep, 1, "jp")
 	ruleCallOrder(prog, rep, 1, "jp")
-	ruleIfaceEq(prog, rep, "jp") // asm is not in scope: Plan.Execute turns a comparison panic into its error result
+	ruleIfaceEq(prog, rep, "jp")            // asm is not in scope: Plan.Execute turns a comparison panic into its error result
 	ruleRecursionPassesNil(prog, rep, "jp") // the parent operator decides whether a group may be dropped
-	ruleCarry(prog, rep, 100, nil, "jp") // per-operand state must not leak from one operand to the next
+	ruleCarry(prog, rep, 100, nil, "jp")    // per-operand state must not leak from one operand to the next
 	ruleDivGuard(prog, rep, []string{"jp:script.go"}, nil, 5)
 	ruleConstIdx(prog, rep, 20, func(rel, fn string) bool {
 		return strings.HasPrefix(fn, "Script.") || fn == "evalStack" || fn == "expandStack" || fn == "normalize" || fn == "same"
